@@ -230,6 +230,30 @@ pub fn run(ctx: &Ctx, rep: &Report) -> Meta {
         })
         .collect();
     par_items(ctx, rep, "size-sweep", &sweep, |c| check(rep, "size-sweep", c));
+    // long-lived threads: a few hundred proof generations and verifications in sequence on the same thread
+    {
+        let rounds = ctx.tier.pick(40usize, 300usize);
+        let threads: Vec<usize> = (0..4).collect();
+        par_items(ctx, rep, "long-lived-thread", &threads, |&t| {
+            for k in 0..rounds {
+                if rep.aborted() {
+                    break;
+                }
+                let l = [2usize, 1, 4, 3, 6, 0, 5, 9][(k + t) % 8];
+                let c = Case {
+                    suite: if (k + t) % 2 == 0 { SuiteId::Sha256 } else { SuiteId::Shake256 },
+                    key: KeySpec { fixture: false, ikm: BSpec { len: 32, class: 0, seed: (t * 7) as u32 + (crate::gen::splitmix(&mut ((t as u64) << 20 | k as u64)) % 4) as u32 }, key_info: OptBytes::None, key_dst: OptBytes::None },
+                    header: [OptBytes::Bytes(BSpec { len: 16, class: 0, seed: k as u32 }), OptBytes::None][k % 2].clone(),
+                    ph: [OptBytes::None, OptBytes::Bytes(BSpec { len: 9, class: 0, seed: k as u32 }), OptBytes::Empty][k % 3].clone(),
+                    msgs: MsgVec { items: (0..l).map(|j| BSpec { len: [5usize, 0, 40][j % 3], class: 0, seed: (k * 100 + j) as u32 }).collect() },
+                    all_masks: false,
+                    mask_seed: (k * 31 + t) as u32,
+                };
+                check(rep, "long-lived-thread", &c)?;
+            }
+            Ok(())
+        });
+    }
     if !rep.aborted() {
         rep.exhaustive(format!("every message count L in 7..={} with the class masks", ctx.tier.pick(72, 200)));
     }
@@ -238,7 +262,7 @@ pub fn run(ctx: &Ctx, rep: &Report) -> Meta {
     Meta {
         rule: "honest signature x header x ph x disclosure mask: ALL 2^L masks for L = 0..=6 (quick) / 0..=10 (thorough) under both suites and three header/ph classes, \
                plus class-sampled masks (none, all, first, last, all-but-last, evens, only-22, all-but-22, random half/sparse/dense) for L in {7..257, 1000}; \
-               every L in 7..=72 (quick) / 7..=200 (thorough) with the class masks, the fixed cases under contention, verification repeated on a freshly started thread, half of the cases after a warm-up history; oracle: proof_gen Ok, proof_verify Ok with exactly msgs|D, equal object and Ok after from_bytes(to_bytes()) and (L <= 40) after serde_json, length = 272 + 32*U; production randomness path; \
+               every L in 7..=72 (quick) / 7..=200 (thorough) with the class masks, the fixed cases under contention, verification repeated on a freshly started thread, half of the cases after a warm-up history, four long-lived threads with 40 (quick) / 300 (thorough) cases each in sequence (each with its class-sampled masks); oracle: proof_gen Ok, proof_verify Ok with exactly msgs|D, equal object and Ok after from_bytes(to_bytes()) and (L <= 40) after serde_json, length = 272 + 32*U; production randomness path; \
                non-trivial = (L, mask) outside the three fixture disclosure sets; evaluations = proof verifications + decode checks"
             .into(),
         assumptions: vec!["index lists handed to the library are ascending and duplicate-free (documented precondition)".into()],
